@@ -52,7 +52,7 @@ DERIVE = ["copy", "copy", "copy_empty", "add", "sub", "mul", "div", "sum1", "rad
 MUTATE = ["fill", "fill", "fill_n", "fill_n", "fill_far", "iadd", "imul", "idiv", "set_dtype", "set_name", "set_title",
           "set_axis_names", "set_meta", "merge_inplace", "normalize_inplace", "set_adaptive", "isub"]
 KINDS = ["h1", "h1", "h1_adaptive", "h1_adaptive", "h2", "h2_adaptive", "h3", "h3_adaptive", "polar", "cylindrical",
-         "spherical", "collection", "h1_gapped"]
+         "spherical", "collection", "h1_gapped", "h2_thin", "h2_fortran"]
 
 
 def generate(rng, seed, part):
@@ -117,6 +117,25 @@ def make_object(spec):
             h.axis_name = "x"
         if n:
             h.fill_n(mk_values(r, 1, n)[:, 0])
+        return h
+    if kind in ("h2_thin", "h2_fortran"):
+        # a single bin along one axis / contents handed over in Fortran order (kept as given): layouts in which a
+        # transpose or a reshape is a view, not a copy
+        if kind == "h2_thin":
+            bs = [StaticBinning(np.array([[0.0, 4.0]])), StaticBinning(np.array([[0.0, 1.0], [1.0, 2.5], [2.5, 4.0]]))]
+            if r.random() < 0.5:
+                bs = bs[::-1]
+            h = Histogram2D(bs, **dt)
+        else:
+            bs = [StaticBinning(np.array([[0.0, 1.0], [1.0, 2.5], [2.5, 4.0]])),
+                  StaticBinning(np.array([[0.0, 1.0], [1.0, 2.0], [2.0, 3.0], [3.0, 4.0]]))]
+            contents = np.asfortranarray(np.arange(12, dtype=np.int64).reshape(3, 4) % 5)
+            h = Histogram2D(bs, frequencies=contents, errors2=np.asfortranarray(contents * 2), **dt)
+        if names:
+            h.name = "obj"
+            h.axis_names = ["x", "y"]
+        if n:
+            h.fill_n(mk_values(r, 2, n))
         return h
     if kind in ("h2", "h2_adaptive", "h3", "h3_adaptive", "h3_wide"):
         d = 2 if kind.startswith("h2") else 3
